@@ -109,6 +109,39 @@ theorem restoreFile_old_missing_parent_witness :
         (·.nodeAt [[111], [102]]) = some (.file [1] false) := by
   decide
 
+/-! ## The executable flag as a function of the permission mode
+
+The tree model carries one Boolean per file. The handlers derive it from the permission mode; which
+bits count decides whether a stale file with an unusual mode passes for the cached executable. -/
+
+/-- "some execute bit is set": the reading of the handlers as found. -/
+def anyExec (m : Nat) : Bool := m &&& 0o111 != 0
+
+/-- "the owner may execute it": the reading after the repair (file and directory handlers, write and restore). -/
+def ownerExec (m : Nat) : Bool := m &&& 0o100 != 0
+
+/-- `setExecutable`: the mode of the restored file, given the mode found at the destination after the content is in
+    place and the cached flag. The mode is only touched when the flag read from it differs from the cached one. -/
+def modeAfter (v : Variant) (m : Nat) (cached : Bool) : Nat :=
+  let same := match v with
+    | .old => anyExec m == cached
+    | .fixed => ownerExec m == cached
+  if same then m else if cached then 0o755 else 0o644
+
+/-- After the repair a restored output is runnable by its owner exactly if it was cached as executable, whatever
+    mode the stale file at the destination had. -/
+theorem modeAfter_fixed_owner (m : Nat) (cached : Bool) : ownerExec (modeAfter .fixed m cached) = cached := by
+  unfold modeAfter
+  by_cases h : ownerExec m = cached
+  · simp [h]
+  · cases cached <;> simp [h] <;> decide
+
+/-- Regression witness (the handlers as found): a stale file with mode 0654 (or 0645) at the destination of an output
+    that was cached as executable is left as it is: the restore succeeds and the owner cannot run the result. -/
+theorem modeAfter_old_not_runnable_witness :
+    ownerExec (modeAfter .old 0o654 true) = false ∧ ownerExec (modeAfter .old 0o645 true) = false := by
+  decide
+
 /-! ## Directory outputs -/
 
 section Dir
